@@ -98,13 +98,18 @@ theorem fixed_operation_survives_history (c : Circuit) (ms : List Move) (c' : Ci
 
 /-! ## 3. which edge pairs admit a two-qubit insertion -/
 
-/-- soundness of `find_incompatible_edges`: when the saturation sets are closed, an edge `e2` outside the incompatible
-    set of `e1` is a different edge, lies on a different wire, and neither head reaches the other's tail … -/
-theorem compatible_edges_are_safe (c : Circuit) (e1 e2 : Edge) (hv1 : c.validReg e1.r = true) (hv2 : c.validReg e2.r = true)
-    (hp1 : e1.pos ≤ (c.wire e1.r).length) (hp2 : e2.pos ≤ (c.wire e2.r).length)
-    (hcl : (c.incompatInfo e1).closed = true) (hinc : c.isIncompatible e1 (c.incompatInfo e1) e2 = false) :
+/-- the ancestor / descendant sets computed for `find_incompatible_edges` are always complete on a well-formed circuit
+    (the executable closedness test that `step` performs never fails) -/
+theorem incompatible_edge_search_is_complete (c : Circuit) (hwf : c.WF) (e : Edge) : (c.incompatInfo e).closed = true :=
+  incompatInfo_closed c hwf e
+
+/-- soundness of `find_incompatible_edges`: an edge `e2` outside the incompatible set of `e1` is a different edge, lies
+    on a different wire, and neither head reaches the other's tail … -/
+theorem compatible_edges_are_safe (c : Circuit) (hwf : c.WF) (e1 e2 : Edge) (hv1 : c.validReg e1.r = true)
+    (hv2 : c.validReg e2.r = true) (hp1 : e1.pos ≤ (c.wire e1.r).length) (hp2 : e2.pos ≤ (c.wire e2.r).length)
+    (hinc : c.isIncompatible e1 (c.incompatInfo e1) e2 = false) :
     e1.r ≠ e2.r ∧ ¬ Relation.ReflTransGen c.E (c.dst e1) (c.src e2) ∧ ¬ Relation.ReflTransGen c.E (c.dst e2) (c.src e1) := by
-  obtain ⟨hne, h12, h21⟩ := compatible_of_not_incompatible c e1 e2 hv2 hcl hinc
+  obtain ⟨hne, h12, h21⟩ := compatible_of_not_incompatible c e1 e2 hv2 (incompatInfo_closed c hwf e1) hinc
   exact ⟨distinct_wires_of_compatible c e1 e2 hv1 hp1 hp2 hne h12 h21, h12, h21⟩
 
 /-- … and inserting a node on edges none of whose heads reaches any of their tails keeps the DAG acyclic -/
